@@ -127,6 +127,23 @@ func fileExists(path2 string) bool {
 	return true
 }
 
+// checkCategoryNameFile returns an error if dirName has a category_name file with another content.
+// A missing directory or a missing file is fine: writeCategoryNameFile will create it.
+func checkCategoryNameFile(catName, dirName string) error {
+	catNameFile := filepath.Join(dirName, "category_name")
+	if !fileExists(catNameFile) {
+		return nil
+	}
+	buffer, err := os.ReadFile(catNameFile)
+	if err != nil {
+		return err
+	}
+	if string(buffer) != catName {
+		return fmt.Errorf("category name does not match on-disk name")
+	}
+	return nil
+}
+
 func writeCategoryNameFile(catName, dirName string) error {
 	catNameFile := filepath.Join(dirName, "category_name")
 
@@ -174,6 +191,22 @@ func (d *Directory) AddTimeBucket(tbk *io.TimeBucketKey, f *io.TimeBucketInfo) (
 
 	catkeySplit := tbk.GetCategories()
 	datakeySplit := tbk.GetItems()
+
+	// Check the key against what is on disk before anything is created: a rejected key
+	// must not leave directories behind.
+	if len(catkeySplit) != len(datakeySplit) {
+		return fmt.Errorf("key %s has %d items but %d categories", tbk.String(), len(datakeySplit), len(catkeySplit))
+	}
+	checkDir := d.GetPath()
+	for i, dataDirName := range datakeySplit {
+		if err = checkCategoryNameFile(catkeySplit[i], checkDir); err != nil {
+			return errors.New(io.GetCallerFileContext(0) + err.Error())
+		}
+		checkDir = filepath.Join(checkDir, dataDirName)
+	}
+	if err = checkCategoryNameFile("Year", checkDir); err != nil {
+		return errors.New(io.GetCallerFileContext(0) + err.Error())
+	}
 
 	dirname := d.GetPath()
 	for i, dataDirName := range datakeySplit {
